@@ -1,9 +1,221 @@
-/- C12 - model (stub: not built yet) -/
+/-
+C12 - model of the nil guards and of the (outcome, error) discipline of the verification entry
+points: `verifier.Verify`, `verifier.VerifyBlob`, `verifier.SkipVerify`, `notation.Verify`,
+`notation.VerifyBlob`, `VerificationOutcome.UserMetadata`.
+
+A Go nil-pointer dereference is the explicit outcome `panicked := true`, so that totality in Lean
+does not make "never panics" vacuous: every guard is a Boolean read from the source
+(`Facts.c12Guards`), and a missing guard makes the model panic exactly where the code would.
+
+Malformed-input cases (`fuzz := true`: arbitrary bytes offered to a parser-facing entry point)
+are outside what a model can exhibit: for them the model only states the expectation "returns
+normally with a consistent (outcome, error) pair" which the harness samples (DESIGN.md C12).
+-/
 import NotationModel.Basic
+import NotationModel.Generated.C12
 open Lean
 
 namespace NotationModel.C12
 
-def judge (_ : Json) : Except String Json := .error "C12: model not built yet"
+structure Guards where
+  nVerifyBlobVerifierNil : Bool
+  nVerifyBlobReaderNil : Bool
+  nVerifyBlobContentNil : Bool
+  nVerifyVerifierNil : Bool
+  nVerifyRepoNil : Bool
+  nVerifyOutcomeNil : Bool
+  userMetadataContentNil : Bool
+  skipVerifyDocNil : Bool
+  vVerifyDocNil : Bool
+  vVerifyBlobDocNil : Bool
+  pluginManagerNil : Bool
+  deriving DecidableEq, Repr
+
+def guardOf (l : List (String × Bool)) (name : String) : Bool := (l.lookup name).getD false
+
+/-- the guards as extracted from the current source -/
+def sourceGuards : Guards :=
+  let l := Facts.c12Guards
+  { nVerifyBlobVerifierNil := guardOf l "nVerifyBlobVerifierNil",
+    nVerifyBlobReaderNil := guardOf l "nVerifyBlobReaderNil",
+    nVerifyBlobContentNil := guardOf l "nVerifyBlobContentNil",
+    nVerifyVerifierNil := guardOf l "nVerifyVerifierNil",
+    nVerifyRepoNil := guardOf l "nVerifyRepoNil",
+    nVerifyOutcomeNil := guardOf l "nVerifyOutcomeNil",
+    userMetadataContentNil := guardOf l "userMetadataContentNil",
+    skipVerifyDocNil := guardOf l "skipVerifyDocNil",
+    vVerifyDocNil := guardOf l "vVerifyDocNil",
+    vVerifyBlobDocNil := guardOf l "vVerifyBlobDocNil",
+    pluginManagerNil := guardOf l "pluginManagerNil" }
+
+def Guards.all (g : Guards) : Bool :=
+  g.nVerifyBlobVerifierNil && g.nVerifyBlobReaderNil && g.nVerifyBlobContentNil && g.nVerifyVerifierNil &&
+  g.nVerifyRepoNil && g.nVerifyOutcomeNil && g.userMetadataContentNil && g.skipVerifyDocNil &&
+  g.vVerifyDocNil && g.vVerifyBlobDocNil && g.pluginManagerNil
+
+/-- what the configured policy document yields for the query of this case -/
+inductive Stmt
+  | missing     -- the verifier was built without this kind of document (nil pointer)
+  | noMatch     -- no applicable statement
+  | skip        -- the applicable statement's level is skip
+  | enforce     -- a non-skip statement applies
+  deriving DecidableEq, Repr, FromJson, ToJson
+
+inductive Sig
+  | valid            -- verifies under the statement
+  | garbage          -- does not parse
+  | demandsPlugin    -- valid, names a verification plugin that is not installed
+  deriving DecidableEq, Repr, FromJson, ToJson
+
+inductive Entry
+  | vVerify | vVerifyBlob | skipVerify | nVerify | nVerifyBlob
+  | userMetadata     -- UserMetadata() of the outcome verifier.Verify returned
+  | nilArgs          -- notation.Verify / VerifyBlob with nil verifier / repository / reader
+  | parser           -- a parser-facing entry point fed with a malformed document (fuzz cases only)
+  deriving DecidableEq, Repr, FromJson, ToJson
+
+structure Input where
+  entry : Entry
+  oci : Stmt
+  blob : Stmt
+  manager : Bool          -- a plugin manager is configured
+  sig : Sig
+  fuzz : Bool             -- malformed-input case (sampled, not modelled)
+  deriving Repr, FromJson, ToJson
+
+structure Outcome where
+  hasError : Bool
+  hasContent : Bool
+  deriving DecidableEq, Repr, FromJson, ToJson
+
+structure Obs where
+  panicked : Bool
+  err : Bool
+  outcome : Option Outcome
+  consistent : Bool       -- no error => outcome without error (verifier level: failure after
+                          -- policy selection => outcome with its error set); computed by the harness
+  deriving DecidableEq, Repr, FromJson, ToJson
+
+def panic : Obs := { panicked := true, err := false, outcome := none, consistent := false }
+def failNoOutcome : Obs := { panicked := false, err := true, outcome := none, consistent := true }
+def failWith (content : Bool) : Obs :=
+  { panicked := false, err := true, outcome := some { hasError := true, hasContent := content }, consistent := true }
+def okWith (content : Bool) : Obs :=
+  { panicked := false, err := false, outcome := some { hasError := false, hasContent := content }, consistent := true }
+
+/-- `verifier.Verify` / `verifier.VerifyBlob` after the document has been found -/
+def verifyWithStmt (g : Guards) (st : Stmt) (manager : Bool) (sig : Sig) : Obs :=
+  match st with
+  | .missing => panic                 -- unreachable: callers test the guard first
+  | .noMatch => failNoOutcome
+  | .skip => okWith false
+  | .enforce =>
+    match sig with
+    | .valid => okWith true
+    | .garbage => failWith false
+    | .demandsPlugin =>
+      -- integrity passed, so the outcome carries the envelope content
+      if manager then failWith true
+      else if g.pluginManagerNil then failWith true else panic
+
+def vVerify (g : Guards) (i : Input) : Obs :=
+  if i.oci == .missing then (if g.vVerifyDocNil then failNoOutcome else panic)
+  else verifyWithStmt g i.oci i.manager i.sig
+
+def vVerifyBlob (g : Guards) (i : Input) : Obs :=
+  if i.blob == .missing then (if g.vVerifyBlobDocNil then failNoOutcome else panic)
+  else verifyWithStmt g i.blob i.manager i.sig
+
+/-- `SkipVerify`: (error, skip) - reported as an Obs with the level outcome when skipped -/
+def skipVerify (g : Guards) (i : Input) : Obs :=
+  match i.oci with
+  | .missing => if g.skipVerifyDocNil then failNoOutcome else panic
+  | .noMatch => failNoOutcome
+  | .skip => okWith false
+  | .enforce => { panicked := false, err := false, outcome := none, consistent := true }
+
+/-- `notation.Verify` with a repository listing exactly one signature -/
+def nVerify (g : Guards) (i : Input) : Obs :=
+  match skipVerify g i with
+  | { panicked := true, .. } => panic
+  | { err := true, .. } => failNoOutcome
+  | { outcome := some _, .. } => okWith false           -- skipped
+  | _ =>
+    let inner := vVerify g i
+    if inner.panicked then panic
+    else if inner.err then
+      -- the failing outcome is folded into the returned error; no outcome is returned
+      match inner.outcome with
+      | some _ => failNoOutcome
+      | none => if g.nVerifyOutcomeNil then failNoOutcome else panic
+    else okWith true
+
+/-- `notation.VerifyBlob` -/
+def nVerifyBlob (g : Guards) (i : Input) : Obs :=
+  let inner := vVerifyBlob g i
+  if inner.panicked then panic
+  else if inner.err then failNoOutcome
+  else match inner.outcome with
+    | some o =>
+      if o.hasContent then okWith true
+      else if g.nVerifyBlobContentNil then okWith false else panic
+    | none => panic
+
+/-- `outcome.UserMetadata()` on whatever `verifier.Verify` returned -/
+def userMetadata (g : Guards) (i : Input) : Obs :=
+  let inner := vVerify g i
+  if inner.panicked then panic
+  else match inner.outcome with
+    | none => { panicked := false, err := inner.err, outcome := none, consistent := true }  -- nothing to call it on
+    | some o =>
+      if o.hasContent then { panicked := false, err := false, outcome := some o, consistent := true }
+      else if g.userMetadataContentNil then { panicked := false, err := true, outcome := some o, consistent := true }
+      else panic
+
+/-- nil verifier / repository / reader -/
+def nilArgs (g : Guards) : Obs :=
+  if g.nVerifyVerifierNil && g.nVerifyRepoNil && g.nVerifyBlobVerifierNil && g.nVerifyBlobReaderNil
+  then failNoOutcome else panic
+
+def runWith (g : Guards) (i : Input) : Obs :=
+  if i.fuzz then { panicked := false, err := false, outcome := none, consistent := true }
+  else match i.entry with
+    | .vVerify => vVerify g i
+    | .vVerifyBlob => vVerifyBlob g i
+    | .skipVerify => skipVerify g i
+    | .nVerify => nVerify g i
+    | .nVerifyBlob => nVerifyBlob g i
+    | .userMetadata => userMetadata g i
+    | .nilArgs => nilArgs g
+    | .parser => { panicked := false, err := false, outcome := none, consistent := true }
+
+def run (i : Input) : Obs := runWith sourceGuards i
+
+/-! ### the property over observables -/
+
+/-- the applicable statement was selected (a policy exists and matches) -/
+def policySelected (i : Input) : Bool :=
+  match i.entry with
+  | .vVerify => i.oci == .skip || i.oci == .enforce
+  | .vVerifyBlob => i.blob == .skip || i.blob == .enforce
+  | _ => false
+
+def clauses (i : Input) (o : Obs) : Clauses :=
+  [ ("returns_normally_never_panics", !o.panicked),
+    ("pair_consistent_as_observed", o.consistent),
+    ("no_error_means_outcome_without_error",
+      i.fuzz || i.entry == .skipVerify || i.entry == .userMetadata || i.entry == .parser || o.err ||
+        match o.outcome with
+        | some oc => !oc.hasError
+        | none => false),
+    ("failure_after_policy_selection_has_outcome_with_error",
+      i.fuzz || !(policySelected i && o.err) ||
+        match o.outcome with
+        | some oc => oc.hasError
+        | none => false) ]
+
+def Holds (i : Input) (o : Obs) : Bool := (clauses i o).holds
+
+def judge := judgeWith run clauses
 
 end NotationModel.C12
